@@ -22,7 +22,8 @@ META = {
              "sessions, write interval 0, the 1 s write ticker of kind p1t, CompactSwamp) then follows is TESTED by the correspondence run and "
              "the independent reference, not proved. Keys the file cannot hold are refused by the gateway (fact keyChecked, modelled: "
              "InvalidArgument before anything is created). The file format itself is C01. encoding/gob's zero omission is modelled "
-             "(validated by the 28-value table case on both write paths), not verified."),
+             "(validated by the 28-value table case on both write paths), not verified. "
+             "NOT PROVED: Hv.C05.Holds in the positive direction (only refuted per bad fact); HoldsSingle is one session on a buffered swamp (write interval > 0) only; the request universe of the Lean statements (Req) has no PatchTreasures / expired-shift / ShiftMatching — those reach persistence through the same SaveFunction / deleteHandler and are exercised by the correspondence run (one request in five) and the reference oracle, not by a theorem."),
     "design_ref": "§8 C05",
 }
 
